@@ -119,6 +119,44 @@ fn mix_seed(base: u64, i: u64) -> u64 {
 
 /// `simk work <ID> <tier> <base_seed> <from> <to> [step]`: run plans from, from+step, ... below `to`
 /// and print one JSON line each.
+/// What the process is doing, for `fatal_violation`.
+#[derive(Clone)]
+pub enum FatalCtx {
+    /// inside `simk work`: plan index, the arguments needed to carry on with the next plan in a fresh process image
+    Work { id: String, tier: String, base: u64, i: u64, to: u64, step: u64, plan: Value },
+    /// inside `simk runplan` / `replay` / `show` / `debug`: print the report and leave
+    Single,
+}
+pub static FATAL_CTX: std::sync::Mutex<Option<FatalCtx>> = std::sync::Mutex::new(None);
+
+/// A run cannot be brought to an end (real code is stuck in a loop that no longer reaches a point where the simulator
+/// could stop it): report `v` as the outcome of the current plan and get rid of the process. In a `work` batch the
+/// process image is replaced (exec) by a fresh one that carries on with the next plan on the same stdout, so the batch
+/// loses nothing but the stuck run.
+pub fn fatal_violation(seed: u64, family: &str, summary: &str, v: Violation) -> ! {
+    use std::io::Write;
+    let rep = RunReport { seed, family: family.to_string(), summary: summary.to_string(), violations: vec![v], nontrivial: true, ..Default::default() };
+    let ctx = FATAL_CTX.lock().map(|g| g.clone()).unwrap_or(None);
+    let stdout = std::io::stdout();
+    match ctx {
+        Some(FatalCtx::Work { id, tier, base, i, to, step, plan }) => {
+            let line = json!({"i": i, "wall_ms": 0, "report": rep, "plan": plan});
+            { let mut l = stdout.lock(); let _ = writeln!(l, "{}", line); let _ = l.flush(); }
+            let next = i + step.max(1);
+            if next >= to { std::process::exit(0); }
+            use std::os::unix::process::CommandExt;
+            let exe = std::env::current_exe().expect("current_exe");
+            let e = Command::new(exe).args(["work", &id, &tier, &base.to_string(), &next.to_string(), &to.to_string(), &step.to_string()]).exec();
+            eprintln!("fatal_violation: exec failed: {e}");
+            std::process::abort();
+        }
+        _ => {
+            { let mut l = stdout.lock(); let _ = writeln!(l, "{}", serde_json::to_string(&rep).unwrap()); let _ = l.flush(); }
+            std::process::exit(0);
+        }
+    }
+}
+
 pub fn work(prop: &dyn Property, tier: Tier, base: u64, from: u64, to: u64, step: u64) {
     let stdout = std::io::stdout();
     let enumerated = prop.enumerated(tier);
@@ -130,6 +168,7 @@ pub fn work(prop: &dyn Property, tier: Tier, base: u64, from: u64, to: u64, step
         // descriptors a run leaves behind (a worker that panicked or was aborted never closes its sockets) would
         // exhaust the process after some ten thousand runs: close whatever is new after each plan
         let fds_before = crate::netsim::open_fds();
+        if let Ok(mut g) = FATAL_CTX.lock() { *g = Some(FatalCtx::Work { id: prop.id().to_string(), tier: tier.name().to_string(), base, i, to, step, plan: plan.clone() }); }
         let mut rep = prop.run_plan(&plan);
         // determinism re-check on a sample: same plan twice in this process must hash identically
         let recheck = i % 16 == 0;
@@ -157,6 +196,7 @@ pub fn run_plan_file(prop: &dyn Property, path: &str) -> RunReport {
     let s = std::fs::read_to_string(path).expect("read plan");
     let v: Value = serde_json::from_str(&s).expect("plan json");
     let plan = v.get("plan").cloned().unwrap_or(v);
+    if let Ok(mut g) = FATAL_CTX.lock() { *g = Some(FatalCtx::Single); }
     prop.run_plan(&plan)
 }
 
